@@ -150,18 +150,8 @@ def run(ctx: Ctx) -> None:
     ctx.rule("G8", "every block type, SYMBOLSET and the key/value blocks are accepted as the root of a partial Mapfile (LALR automaton + evaluated retagging); start() and Canonize.symbolset exist", 20)
     btypes = grammar_block_types(G)
 
-    def retag(prev, kind, text):
-        outs = models.retag_outcomes(e, None if prev is None else (prev[0], prev[1] if prev[1] is not None else (lambda: SStr.atom("t", free=True))), kind, text if text is not None else (lambda: SStr.atom("t", free=True)))
-        kinds = {o[0] for o in outs}
-        if len(kinds) != 1:
-            raise AnalysisError(f"retagging not determined for {kind}")
-        k = next(iter(kinds))
-        if k.startswith("raise:"):
-            raise _Raised(k[6:])
-        return k
-
-    class _Raised(Exception):
-        pass
+    retag = models.make_retag(e)
+    _Raised = models.RetagRaised
 
     roots = [(t, [("W", t.upper()), ("W", "END")]) for t in sorted(btypes)]
     roots.append(("symbolset", [("W", "SYMBOLSET"), ("W", "END")]))
